@@ -125,6 +125,10 @@ def do_binop(I, op, a, b, st, node=None):
         if isinstance(a, tuple) and isinstance(b, tuple):
             return V(a + b, st)
     if op == "Mult":
+        if isinstance(a, (bytes, SymBytes)) and seq_len(a) == 1 and is_symint(b):
+            # one byte repeated a symbolic number of times: constant array
+            x = to_z3int(seq_at(a, 0))
+            return V(SymSeq(z3.K(z3.IntSort(), x), 0, z3.simplify(z3.If(b > 0, b, 0))), st)
         if isinstance(a, (str, bytes, tuple)) and isinstance(b, int) and not is_sym(b):
             return V(a * b, st)
         if isinstance(b, (str, bytes, tuple)) and isinstance(a, int) and not is_sym(a):
